@@ -27,6 +27,14 @@ def scenarios(rng, tier):
                 if kind == 'emit': s.frame(0, emit(Y, own, [(1, 0, mac(7), mac(8))], seq=rng.randrange(1, 65536), tos=tos))
                 elif kind == 'query': s.frame(0, query(Y, own, seq=rng.randrange(1, 65536), tos=tos))
                 else: s.frame(0, qlt(Y, own, 14, 0, seq=rng.randrange(1, 65536), tos=tos))
+    # the mapper's successive Discovers carry generations that are byte-swaps of each other (and of what the other service
+    # holds): still the mapper, still answered; after a Reset of either service the next station is accepted whatever it carries
+    for k in range(10 if tier == 'quick' else 120):
+        G = [0x1200, 0x00FF, 0x1234, 0xFF00, 0x0100, rng.randrange(1, 65536)][k % 6]; Gs = ((G & 255) << 8) | (G >> 8)
+        s.start('swapgen_%d' % k); M_, X_ = st0[0], st0[1]
+        s.frame(0, discover(M_, tos=k % 2, gen=G, seq=1)); s.frame(0, discover(M_, tos=k % 2, gen=Gs, seq=2)); s.frame(0, discover(M_, tos=1 - k % 2, gen=Gs, seq=3))
+        s.frame(0, discover(X_, tos=k % 2, gen=G, seq=4)); s.frame(0, discover(M_, tos=k % 2, gen=G, seq=5))
+        s.frame(0, reset(M_, tos=[1, 0][k % 2])); s.frame(0, discover(X_, tos=1, gen=Gs, seq=6)); s.frame(0, discover(X_, tos=0, gen=G, seq=7)); s.frame(0, discover(M_, tos=0, gen=Gs, seq=8))
     # restricted-domain histories: commands only from the tracked mapper
     for k in range(n):
         s.start('dom_%d' % k); tr = MapperTracker()
